@@ -17,6 +17,17 @@ Static rules over the syntax trees of ``<repo>/pde`` (nothing is imported or run
                                          key by content only
 (c) inventory and the hand-written cache of ``PDE._prepare_cache``
     C04.validity-test / C04.validity-test-misses-read
+(d) state read by a cached method is not changed later without invalidation
+    C04.cached-reads-mutable-state       an attribute (down to storage, through getters and self-calls) read by a
+                                         cached method is re-bound / written in place by a non-constructor method of the
+                                         class family that does not drop the result store (and is not in ``extra_args``)
+    C04.cached-reads-linked-contents     ... or is bound to an object owned by the caller (``link_value``)
+(e) containers shared by reference (expression <-> copies <-> constructor arguments)
+    C04.shared-container-mutated         in-place change of ``user_funcs`` / ``consts`` (as far as ``ExpressionBase.__init__``
+                                         stores the argument object) on anything but a provably new container
+(f) numbers in keys
+    C04.numeric-key-hash-collides        results are looked up by the integer key alone; numbers must not be keyed by the
+                                         builtin ``hash`` (hash(-1) == hash(-2)), neither in hash_mutable nor in a hook
 """
 
 from __future__ import annotations
@@ -640,6 +651,412 @@ def rule_prepare_cache(rep: Report, ix, facts: ck.ClassFacts) -> None:
 
 
 # =====================================================================================
+# (d) state read by a cached method vs. state the class family changes later
+# =====================================================================================
+FLOOR_STATEFUL_SITES = 10  # cached sites whose body reads instance state (13 on the pinned tree)
+
+# methods that receive the class, not an instance
+CLASS_LEVEL_HOOKS = {"__init_subclass__", "__class_getitem__"}
+
+
+def rule_cached_state(rep: Report, ix, km: ck.KeyModel, sites: list[ck.Site], facts: ck.ClassFacts, sf: ck.StateFacts) -> None:
+    """every attribute (down to storage, through property getters and self-calls) that the
+    body of a cached method reads must not be re-bound or written in place by a later
+    method of the class family, unless that method drops the result store on that path or
+    the attribute is part of the key (`extra_args`).  Constructors and helpers that are
+    only called from constructors are exempt (immutable by construction); so are writes by
+    methods the cached method itself runs (lazy initialisation)."""
+    stateful = 0
+    for site in sites:
+        cls = site.cls
+        reads, closure = sf.reads(cls, site.func)
+        if reads:
+            stateful += 1
+        keyed: set[str] = set()
+        for e in site.extra_args:
+            keyed |= facts.storage_of(cls, e)
+        stale: dict[str, list[str]] = {}
+        linked: dict[str, list[str]] = {}
+        first_line: dict[str, int] = {}
+        for k in facts.family(cls):
+            for defs in k.methods.values():
+                for f in defs:
+                    if f is site.func or f.node.name in CLASS_LEVEL_HOOKS:
+                        continue
+                    ws = [w for w in sf.writes(k, f) if w[1] in reads and w[1] not in keyed and w[1] != km.store_attr]
+                    if not ws:
+                        continue
+                    if sf.constructor_only(f):
+                        continue
+                    if f in closure:
+                        rep.note(f"lazy initialisation: {ck.display_ref(f)} writes {sorted({w[1] for w in ws})} and is run by cached {ck.display_name(site.func)} itself: exempt")
+                        continue
+                    rep.saw("functions", f.ref)
+                    invs = ck.invalidations(f, km.store_attr, {site.cache_name}, k)
+                    for st, storage, kind, value in ws:
+                        ok = any(ck.covers(f, i, st) for i, _ in invs)
+                        tag = f"{ck.display_name(site.func)}:{storage}@{ck.display_name(f)}"
+                        if not any(o["name"] == f"state-write-invalidates:{tag}" and o["ok"] == ok for o in rep.obligations):
+                            rep.oblige(f"state-write-invalidates:{tag}", ok, {"kind": kind, "invalidations": [h for _, h in invs]})
+                        if not ok:
+                            stale.setdefault(storage, [])
+                            entry = f"{ck.display_name(f)} ({kind})"
+                            if entry not in stale[storage]:
+                                stale[storage].append(entry)
+                            first_line.setdefault(storage, st.lineno)
+                        if kind == "re-bind":
+                            p_name = sf.links_parameter(f, value)
+                            if p_name:
+                                linked.setdefault(storage, []).append(f"{ck.display_name(f)}({p_name})")
+                                first_line.setdefault("link:" + storage, st.lineno)
+        for storage, writers in sorted(stale.items()):
+            rep.violation(
+                "C04.cached-reads-mutable-state",
+                f"{site.ref}::{storage}",
+                f"cached `{ck.display_name(site.func)}` reads `self.{storage}` (via {' -> '.join(reads[storage][-3:])}) and its result is stored in "
+                f"`self.{km.store_attr}` under a key that does not contain it, but {', '.join(writers[:5])} change{'s' if len(writers) == 1 else ''} that attribute later without dropping "
+                f"the stored result on that path: the method keeps returning values computed from the earlier state",
+                line=first_line.get(storage),
+                writers=writers,
+            )
+        for storage, linkers in sorted(linked.items()):
+            rep.oblige(f"state-not-externally-owned:{ck.display_name(site.func)}:{storage}", False, linkers)
+            rep.violation(
+                "C04.cached-reads-linked-contents",
+                f"{site.ref}::{storage}",
+                f"cached `{ck.display_name(site.func)}` depends on the contents of `self.{storage}`, which {', '.join(sorted(set(linkers)))} binds to an object owned by the caller "
+                f"(in-place changes of that object are the documented use): the cached result cannot follow them, whatever the method invalidates when linking",
+                line=first_line.get("link:" + storage),
+            )
+        if reads:
+            rep.extra.setdefault("state_read_by_cached_sites", {})[ck.display_name(site.func)] = sorted(reads)
+    rep.floor("cached sites whose body reads instance state", stateful, FLOOR_STATEFUL_SITES)
+
+
+# =====================================================================================
+# (e) containers shared by reference between expressions, their copies and callers
+# =====================================================================================
+EXPR_MODULE = "pde/tools/expressions.py"
+# namespaces built while compiling an expression are decided by C11.namespace-fresh-copy
+SHARED_CONTAINER_SKIP_PREFIX = "pde/backends/"
+
+
+def _aliased_param(v: ast.AST, params: set[str]) -> str | None:
+    """parameter whose object the expression evaluates to (no copy in between)"""
+    if isinstance(v, ast.Name) and v.id in params:
+        return v.id
+    if isinstance(v, ast.IfExp):
+        return _aliased_param(v.body, params) or _aliased_param(v.orelse, params)
+    if isinstance(v, ast.BoolOp):
+        for x in v.values:
+            p = _aliased_param(x, params)
+            if p:
+                return p
+    return None
+
+
+def _mutations(f, match):
+    """(statement, attribute, how) for in-place changes of a container `match` recognises"""
+    out = []
+    for st in ck.walk_no_classes(f.node):
+        if isinstance(st, ast.Expr) and isinstance(st.value, ast.Call) and isinstance(st.value.func, ast.Attribute) and st.value.func.attr in ck.MUTATOR_METHODS:
+            a = match(st.value.func.value)
+            if a:
+                out.append((st, a, f".{st.value.func.attr}(...)"))
+        elif isinstance(st, (ast.Assign, ast.AugAssign)):
+            for t in st.targets if isinstance(st, ast.Assign) else [st.target]:
+                if isinstance(t, ast.Subscript):
+                    a = match(t.value)
+                    if a:
+                        out.append((st, a, "[k] = ..."))
+                elif isinstance(st, ast.AugAssign) and isinstance(st.op, ast.BitOr):
+                    a = match(t)
+                    if a:
+                        out.append((st, a, "|= ..."))
+        elif isinstance(st, ast.Delete):
+            for t in st.targets:
+                if isinstance(t, ast.Subscript):
+                    a = match(t.value)
+                    if a:
+                        out.append((st, a, "del [k]"))
+    return out
+
+
+def _all_fresh(g, name: str) -> bool:
+    """`name` is a local of `g` (not a parameter) that is only ever bound to new containers"""
+    a = g.node.args
+    if name in {p.arg for p in a.posonlyargs + a.args + a.kwonlyargs}:
+        return False
+    values = []
+    for n in ck.walk_no_classes(g.node):
+        if isinstance(n, ast.Assign) and any(ck.is_name(t, name) for t in n.targets):
+            values.append(n.value)
+        elif isinstance(n, ast.AnnAssign) and ck.is_name(n.target, name) and n.value is not None:
+            values.append(n.value)
+        elif isinstance(n, (ast.For, ast.comprehension)) and any(ck.is_name(x, name) for x in ast.walk(n.target)):
+            return False
+    return bool(values) and all(ck.is_fresh_container(v) for v in values)
+
+
+def rule_shared_containers(rep: Report, ix, facts: ck.ClassFacts) -> None:
+    base = ix.cls(EXPR_MODULE, "ExpressionBase")
+    init = ix.func(EXPR_MODULE, "ExpressionBase.__init__")
+    for anchor in ("ScalarExpression.__init__", "TensorExpression.__init__", "ScalarExpression.copy"):
+        ix.func(EXPR_MODULE, anchor)
+    family = ix.subclasses(base)
+    me = ck.first_param(init)
+    a = init.node.args
+    params = {p.arg for p in a.posonlyargs + a.args + a.kwonlyargs} - {me}
+    shared: dict[str, str] = {}  # attribute -> constructor parameter it aliases
+    assigned: set[str] = set()
+    for n in ck.walk_own(init.node):
+        if isinstance(n, ast.Assign):
+            for t in n.targets:
+                if ck.is_attr_of(t, me):
+                    assigned.add(t.attr)
+                    p = _aliased_param(n.value, params)
+                    if p and not ck.is_fresh_container(n.value):
+                        shared[t.attr] = p
+    for needed in ("user_funcs", "consts"):
+        if needed not in assigned:
+            raise AnalysisError(f"{init.ref}: assignment to `self.{needed}` vanished: cannot tell whether the container is shared")
+    rep.saw("functions", init.ref)
+    rep.sample({"expression_containers": {"assigned_in_constructor": sorted(assigned), "bound_to_the_argument_object": shared, "note": "copies made by <cls>(expression) pass the same objects on"}})
+    if not shared:
+        rep.oblige("expression-containers-private", True, "ExpressionBase.__init__ stores new containers: in-place changes stay local")
+        return
+    by_param = {p: attr for attr, p in shared.items()}
+    n_checked = 0
+
+    def report(f, st, attr: str, how: str, why: str) -> None:
+        rep.violation(
+            "C04.shared-container-mutated",
+            f"{ck.display_ref(f)}::{attr}",
+            f"`{ck.display_name(f)}` changes the `{attr}` container of an expression in place (`{ast.unparse(st)[:70]}`), but {why}: "
+            f"`ExpressionBase.__init__` stores the argument object itself and copies pass it on, so the change is seen by the caller's dictionary and by every other "
+            f"expression/PDE built from it (results then depend on what was compiled or constructed before)",
+            line=st.lineno,
+        )
+
+    # ---- inside the expression classes
+    for k in family:
+        for defs in k.methods.values():
+            for f in defs:
+                sme = ck.first_param(f)
+                fa = f.node.args
+                fparams = {p.arg for p in fa.posonlyargs + fa.args + fa.kwonlyargs}
+                alias: dict[str, str] = {}
+                is_ctor = f.node.name in ck.CONSTRUCTOR_NAMES
+                if is_ctor:
+                    if f is init:
+                        alias = {p: attr for attr, p in shared.items()}
+                    for n in ck.walk_no_classes(f.node):
+                        if isinstance(n, ast.Call) and isinstance(n.func, ast.Attribute) and n.func.attr == "__init__":
+                            for kw in n.keywords:
+                                if kw.arg in by_param and isinstance(kw.value, ast.Name):
+                                    alias[kw.value.id] = by_param[kw.arg]
+
+                def match(e, sme=sme, alias=alias):
+                    if sme and ck.is_attr_of(e, sme) and e.attr in shared:
+                        return e.attr
+                    if isinstance(e, ast.Name) and e.id in alias:
+                        return alias[e.id]
+                    return None
+
+                for st, attr, how in _mutations(f, match):
+                    n_checked += 1
+                    rep.saw("functions", f.ref)
+                    target = st.value.func.value if isinstance(st, ast.Expr) else None
+                    name = None
+                    for x in ast.walk(st):
+                        if isinstance(x, ast.Name) and x.id in alias:
+                            name = x.id
+                    ok = False
+                    why = f"`self.{attr}` may be the object the caller passed in"
+                    if name is not None:
+                        # a local/parameter name: fine when a new container was bound to it on every path before
+                        fresh = [
+                            n
+                            for n in ck.walk_no_classes(f.node)
+                            if isinstance(n, (ast.Assign, ast.AnnAssign)) and n.value is not None and any(ck.is_name(t, name) for t in (n.targets if isinstance(n, ast.Assign) else [n.target])) and ck.is_fresh_container(n.value)
+                        ]
+                        ok = any(ck.dominates(f, n, st) for n in fresh)
+                        why = f"`{name}` is {'the argument of the caller' if name in fparams else 'bound to the container of another expression'} on this path (no new container is bound to it before)"
+                    rep.oblige(f"container-mutation-on-private-copy:{ck.display_name(f)}:{attr}:{how}", ok)
+                    if not ok:
+                        report(f, st, attr, how, why)
+
+    # ---- everywhere else (except the namespace builders of the backends: C11)
+    fam_set = set(family)
+    for f in ix.all_functions():
+        if f.module.rel.startswith(SHARED_CONTAINER_SKIP_PREFIX) or (f.cls in fam_set) or (ck.top_function(f).cls in fam_set):
+            continue
+        top = ck.top_function(f)
+        sme = ck.first_param(top) if top.cls is not None else None
+        local_alias: dict[str, str] = {}
+        for n in ck.walk_no_classes(f.node):
+            if isinstance(n, ast.Assign) and isinstance(n.value, ast.Attribute) and n.value.attr in shared and not (sme and ck.is_name(n.value.value, sme)):
+                for t in n.targets:
+                    if isinstance(t, ast.Name):
+                        local_alias[t.id] = n.value.attr
+
+        def match2(e, sme=sme, local_alias=local_alias):
+            if isinstance(e, ast.Attribute) and e.attr in shared and not (sme and ck.is_name(e.value, sme)):
+                return e.attr
+            if isinstance(e, ast.Name) and e.id in local_alias:
+                return local_alias[e.id]
+            return None
+
+        muts = _mutations(f, match2)
+        if not muts or f.parent is not None and any(m[0] in [x[0] for x in _mutations(f.parent, match2)] for m in muts):
+            if not muts:
+                continue
+        scope = [g for k in (facts.family(top.cls) if top.cls is not None else []) for defs in k.methods.values() for g in defs] or [top]
+        for st, attr, how in muts:
+            n_checked += 1
+            rep.saw("functions", f.ref)
+            param = shared[attr]
+            sites_found, not_fresh = 0, []
+            for g in scope:
+                for n in ck.walk_no_classes(g.node):
+                    if not isinstance(n, ast.Call) or not isinstance(n.func, (ast.Name, ast.Attribute)):
+                        continue
+                    r = ck.resolve_in_func(ix, g, ck.dotted(n.func))
+                    if not (isinstance(r, ClassInfo) and r in fam_set):
+                        continue
+                    sites_found += 1
+                    if any(kw.arg is None for kw in n.keywords):
+                        not_fresh.append(f"{ck.display_name(g)}: **kwargs")
+                        continue
+                    v = next((kw.value for kw in n.keywords if kw.arg == param), None)
+                    if v is None or (isinstance(v, ast.Constant) and v.value is None) or ck.is_fresh_container(v):
+                        continue
+                    if isinstance(v, ast.Name) and _all_fresh(g, v.id):
+                        continue
+                    not_fresh.append(f"{ck.display_name(g)}: {param}={ast.unparse(v)}")
+            ok = sites_found > 0 and not not_fresh
+            rep.oblige(f"container-mutation-on-private-copy:{ck.display_name(f)}:{attr}:{how}", ok, {"constructions": sites_found, "not_fresh": not_fresh})
+            if not ok:
+                why = (
+                    f"the expressions of `{top.cls.name if top.cls else ck.display_name(top)}` are built with the caller's object ({'; '.join(not_fresh[:3])})"
+                    if not_fresh
+                    else "no construction of the expression with a new container was found in this class: it may hold the caller's object"
+                )
+                report(f, st, attr, how, why)
+    rep.extra["shared_container_mutations_checked"] = n_checked
+
+
+# =====================================================================================
+# (f) numbers must not enter a key through the builtin hash
+# =====================================================================================
+def _floaty_leaves(atoms, path: str = "") -> list[str]:
+    out = []
+    for a in atoms:
+        here = f"{path}.{a.label}" if a.kind == "attr" and path else (a.label if a.kind == "attr" else path)
+        if a.kind == "value" and a.label in ck.FLOATY_NAMES:
+            out.append(path or a.label)
+        out += _floaty_leaves(a.children, here if a.kind == "attr" else path)
+    return out
+
+
+def rule_numeric_hash(rep: Report, ix, km: ck.KeyModel, ka: ck.KeyAnalysis, facts: ck.ClassFacts, site_atoms: dict) -> None:
+    """results are looked up by the integer key alone (no comparison of the arguments), so
+    the key must separate different numbers; CPython's hash does not: hash(-1) == hash(-2),
+    hash(-1.0) == hash(-2.0)"""
+    # (A) numbers that reach `hash(obj)` in hash_mutable
+    affected = []
+    for site, per_param in site_atoms.items():
+        for pname, atoms in per_param.items():
+            for leaf in _floaty_leaves(atoms, pname):
+                affected.append(f"{ck.display_name(site.func)}({leaf})")
+    affected = sorted(set(affected))
+    reach = km.numbers_reach_builtin_hash()
+    ok = not (reach and affected)
+    rep.oblige("numbers-keyed-injectively:hash_mutable", ok, {"numbers_reach_builtin_hash": reach, "float_valued_key_leaves": affected[:12]})
+    if not ok:
+        rep.violation(
+            "C04.numeric-key-hash-collides",
+            f"{km.func.ref}::hash(obj)",
+            f"cached results are looked up by the integer key alone, and hash_mutable keys numbers by the builtin `hash(obj)`, which maps different numbers to one value "
+            f"(hash(-1) == hash(-2), hash(-1.0) == hash(-2.0)): calls that differ only in such a number share one cached result. Number-valued key parts: "
+            f"{', '.join(affected[:6])}{'...' if len(affected) > 6 else ''}",
+            line=km.hash_line,
+            affected=affected,
+        )
+    # (B) hooks that feed raw numeric attributes to the builtin hash
+    if not km.hook:
+        return
+    kt = ck.KeyAnalysis(ix, km, facts)  # typing only
+    hooked = sorted((c for c, k in ka.kinds.items() if k == "hook" and c in ka.reached), key=lambda c: c.ref)
+    done: set = set()
+    for c in hooked:
+        hk = facts.chain(c, km.hook)
+        for d in hk.definers if hk else ():
+            if d in done:
+                continue
+            done.add(d)
+            me = ck.first_param(d)
+            raw: dict[str, str] = {}
+
+            def collect(e, me=me, raw=raw):
+                if ck.is_attr_of(e, me):
+                    raw[e.attr] = ""
+                elif isinstance(e, (ast.Tuple, ast.List)):
+                    for x in e.elts:
+                        collect(x)
+                elif isinstance(e, ast.Starred):
+                    collect(e.value)
+                elif isinstance(e, ast.Call) and isinstance(e.func, ast.Name) and e.func.id in ("tuple", "list", "sorted", "frozenset"):
+                    for x in e.args:
+                        collect(x)
+                elif isinstance(e, ast.Name):
+                    # hoisted sub-expression
+                    for n in ck.walk_no_classes(d.node):
+                        if isinstance(n, ast.Assign) and any(ck.is_name(t, e.id) for t in n.targets):
+                            collect(n.value)
+
+            for n in ck.walk_no_classes(d.node):
+                if isinstance(n, ast.Call) and ck.is_name(n.func, "hash"):
+                    for x in n.args:
+                        collect(x)
+            floaty = []
+            inty = []
+            for attr in sorted(raw):
+                owner = d.cls
+                g = owner.find_method(attr, "getter") if owner else None
+                atoms = []
+                if g is not None and ck.is_property(g) and g.node.returns is not None:
+                    atoms = kt.classify(g.module, g.node.returns, f"{d.ref}.{attr}")
+                else:
+                    info = facts.inst_attrs(owner).get(ck.mangle(attr, owner.name)) if owner else None
+                    for h in (info.hints if info else [])[:2]:
+                        if not isinstance(h, ClassInfo):
+                            atoms += kt.classify(h[0], h[1], f"{d.ref}.{attr}")
+                labels = set()
+                todo = list(atoms)
+                while todo:
+                    a0 = todo.pop()
+                    if a0.kind == "value":
+                        labels.add(a0.label)
+                    todo += a0.children
+                if labels & ck.FLOATY_NAMES:
+                    floaty.append(attr)
+                elif labels & {"int", "Integral", "integer"}:
+                    inty.append(attr)
+            rep.oblige(f"numbers-keyed-injectively:{ck.display_name(d)}", not floaty, {"float_valued": floaty, "int_valued_not_decided": inty})
+            if inty:
+                rep.note(f"not decided: {ck.display_ref(d)} feeds int-valued attributes {inty} to the builtin hash (injective for 0 <= n < 2**61-1 only; the range is not known statically)")
+            if floaty:
+                rep.violation(
+                    "C04.numeric-key-hash-collides",
+                    f"{ck.display_ref(d)}::builtin-hash",
+                    f"`{ck.display_name(d)}` feeds the float-valued attribute(s) {', '.join(floaty)} to the builtin `hash`, which maps different numbers to one value "
+                    f"(hash(-1.0) == hash(-2.0), and tuples of them alike): objects that differ only there get the same cache key although `__eq__` separates them",
+                    line=d.node.lineno,
+                )
+
+
+# =====================================================================================
 # the check
 # =====================================================================================
 def check(tier: str) -> Report:
@@ -650,7 +1067,9 @@ def check(tier: str) -> Report:
         "contributes to the key (closure over subclasses and over the instance attributes the fallback recurses into). Rules: sibling classes "
         "with equal instance attributes must not be keyed class-blind; a _cache_hash must mention the class and all that __eq__ compares; "
         "ignore_args must not name a used argument; an array whose address is captured (.ctypes / __array_interface__, followed through "
-        "resolved calls) must be invalidated on every re-bind (self) or keyed by address (argument); PDE._prepare_cache must compare all it reads from state."
+        "resolved calls) must be invalidated on every re-bind (self) or keyed by address (argument); PDE._prepare_cache must compare all it reads from state. "
+        "Every attribute a cached method reads (through getters and self-calls) must not be changed later by the class family without dropping the result "
+        "store; containers that ExpressionBase.__init__ shares with its caller and its copies must not be changed in place; numbers must not be keyed by the builtin hash."
     )
     rep.trusted = ["CPython ast", "parameter annotations of the repository", "Python data model (__eq__ without __hash__ => unhashable)"]
     ix = get_index()
@@ -685,12 +1104,14 @@ def check(tier: str) -> Report:
     sites = ck.cached_sites(ix)
     rep.floor("@cached_method/@cached_property sites", len(sites), FLOOR_SITES)
     ka = ck.KeyAnalysis(ix, km, facts)
+    site_atoms: dict = {}
     for site in sites:
         rep.saw("cached_sites", site.ref)
         if site.hash_function not in (None, "hash_mutable"):
             raise AnalysisError(f"{site.ref}: hash_function={site.hash_function!r} is outside the key model")
         key = {}
         ok_site = True
+        site_atoms[site] = {}
         for p in site.params:
             via = f"{ck.display_name(site.func)}({p.name})"
             if p.kind in ("kwarg", "vararg"):
@@ -702,6 +1123,7 @@ def check(tier: str) -> Report:
                 continue
             n_opaque = len(ka.opaque)
             atoms = ka.classify(site.func.module, p.annotation, via)
+            site_atoms[site][p.name] = atoms
             key[p.name] = ck.atoms_text(atoms)
             kinds = ck.atom_kinds(atoms)
             if "error" in kinds:
@@ -734,6 +1156,11 @@ def check(tier: str) -> Report:
 
     # ---- hand-written cache of the PDE class
     rule_prepare_cache(rep, ix, facts)
+
+    # ---- state read by cached methods, shared containers, numeric keys
+    rule_cached_state(rep, ix, km, sites, facts, ck.StateFacts(ix, facts))
+    rule_shared_containers(rep, ix, facts)
+    rule_numeric_hash(rep, ix, km, ka, facts, site_atoms)
 
     rep.assumptions += [
         "annotations describe the argument types (values smuggled through Any/**kwargs are listed as unclassified notes)",
